@@ -25,36 +25,32 @@ pub(crate) fn block_on_paused<T>(f: impl std::future::Future<Output = T>) -> T {
 mod c01;
 #[cfg(any(not(verif_select), verif_ga))]
 mod c02;
-#[cfg(any(not(verif_select), verif_ga))]
-mod c06;
 #[cfg(any(not(verif_select), verif_gb))]
 mod c03;
 #[cfg(any(not(verif_select), verif_gb))]
 mod c04;
 #[cfg(any(not(verif_select), verif_gb))]
 mod c05;
+#[cfg(any(not(verif_select), verif_ga))]
+mod c06;
 #[cfg(any(not(verif_select), verif_gc))]
 mod c07;
-#[cfg(any(not(verif_select), verif_gc))]
-mod c13;
-#[cfg(any(not(verif_select), verif_gc))]
-mod c14;
 #[cfg(any(not(verif_select), verif_gd))]
 mod c08;
-#[cfg(any(not(verif_select), verif_gd))]
-mod c11;
-#[cfg(any(not(verif_select), verif_gd))]
-mod c12;
 #[cfg(any(not(verif_select), verif_ge))]
 mod c09;
 #[cfg(any(not(verif_select), verif_ge))]
 mod c10;
+#[cfg(any(not(verif_select), verif_gd))]
+mod c11;
+#[cfg(any(not(verif_select), verif_gd))]
+mod c12;
+#[cfg(any(not(verif_select), verif_gc))]
+mod c13;
+#[cfg(any(not(verif_select), verif_gc))]
+mod c14;
 #[cfg(any(not(verif_select), verif_gf))]
 mod c15;
-#[cfg(any(not(verif_select), verif_gf))]
-mod c20;
-#[cfg(any(not(verif_select), verif_gf))]
-mod c21;
 #[cfg(any(not(verif_select), verif_gg))]
 mod c16;
 #[cfg(any(not(verif_select), verif_gg))]
@@ -63,6 +59,10 @@ mod c17;
 mod c18;
 #[cfg(any(not(verif_select), verif_gg))]
 mod c19;
+#[cfg(any(not(verif_select), verif_gf))]
+mod c20;
+#[cfg(any(not(verif_select), verif_gf))]
+mod c21;
 #[cfg(any(not(verif_select), verif_gg))]
 mod c22;
 #[cfg(any(not(verif_select), verif_gh))]
